@@ -4,7 +4,7 @@
    all handler behaviours. *)
 From Coq Require Import List NArith ZArith Bool String.
 Import ListNotations.
-From JR Require Import Json Handle Handle_Proofs.
+From JR Require Import Json Json_Proofs Handle Handle_Proofs Reply_Proofs.
 From JRGen Require Extracted.
 
 (* the protocol constants and wire names the model uses are those of /repo's source right now *)
@@ -88,6 +88,33 @@ Theorem c09_at_most_one_invocation : forall c ok r o inv,
   inv = [] \/ exists h ps, resolve c (r_method r) = Some h /\ inv = [(h_name h, ps)].
 Proof. exact handle_invocations. Qed.
 
+(* the bytes of a reply: whatever the model answers (single object or batch array, any size, any nesting of results and
+   error data) is a JSON text that reads back, by the grammar Go's decoder uses, as exactly the reply value — so the
+   shape theorems above are theorems about the bytes on the wire. wf: ids / results / error data are JSON values whose
+   number literals are JSON numbers (what a decoder hands over); error codes below 10^80 *)
+Theorem c09_reply_is_json_text : forall rp v,
+  wf_reply rp -> reply_json rp = Some v -> parse (reply_bytes rp) = Some v.
+Proof. exact reply_round_trip. Qed.
+
+(* the JSON layer itself: printing then parsing is the identity on every well-formed value (all sizes, all depths; strings
+   of arbitrary bytes incl. quotes, backslashes and control characters), also in front of a following element *)
+Theorem c09_parse_print : forall v, wf v -> parse (print v) = Some v.
+Proof. exact parse_print. Qed.
+
+Theorem c09_parse_print_prefix : forall v, wf v -> forall rest, delim rest -> forall f, (need v <= f)%nat ->
+  pval f (print v ++ rest) = Some (v, rest).
+Proof. exact pval_print. Qed.
+
+Theorem c09_integers_are_numbers : forall z, (Z.abs z < 10 ^ 80)%Z -> wf (JNum (z_lit z)).
+Proof. exact wf_int. Qed.
+
+(* every literal the parser accepts is a number that the printer/parser pair preserves; well-formedness is decidable *)
+Theorem c09_parsed_literals_are_numbers : forall s l r, pnum s = Some (l, r) -> num_ok l.
+Proof. exact pnum_sound. Qed.
+
+Theorem c09_wf_decidable : forall v, wfb v = true -> wf v.
+Proof. exact wfb_sound. Qed.
+
 Print Assumptions c09_source_facts.
 Print Assumptions c09_single.
 Print Assumptions c09_batch.
@@ -99,3 +126,9 @@ Print Assumptions c09_empty.
 Print Assumptions c09_unknown_method.
 Print Assumptions c09_wrong_arity.
 Print Assumptions c09_at_most_one_invocation.
+Print Assumptions c09_reply_is_json_text.
+Print Assumptions c09_parse_print.
+Print Assumptions c09_parse_print_prefix.
+Print Assumptions c09_integers_are_numbers.
+Print Assumptions c09_parsed_literals_are_numbers.
+Print Assumptions c09_wf_decidable.
